@@ -448,6 +448,14 @@ func (t *FnTrans) load(st *HeapState, l *Loc, guard string) Val {
 			v.Sub = append(v.Sub, scalar(nil, t.selectComp(st, l, cd)))
 		}
 		t.assume(guard, t.typeAssume(v), "slice header loaded from memory is well-formed")
+		// the backing array of a slice stored in the entry heap existed at entry
+		if len(v.Sub) > 0 && entryHeapSelect.MatchString(v.Sub[0].S) {
+			if !t.declSet["ALLOC0"] {
+				t.declare("ALLOC0", "Int")
+				t.assume("true", sx(">", "ALLOC0", "0"), "allocation frontier is above nil")
+			}
+			t.assume("true", sx("<=", v.Sub[0].S, "ALLOC0"), "a backing array referenced from the entry heap is below the allocation frontier")
+		}
 		return v
 	}
 	cds := t.flatComps(ty)
@@ -1393,6 +1401,17 @@ func (t *FnTrans) Translate() {
 			env := t.entryEnv(entry)
 			t.assumps = append(t.assumps, Assump{Guard: "true", F: Formula{Clause: c, Env: env}, Why: "initial value of the function's own ghost instrumentation"})
 		}
+		if len(t.con.RecvInv) > 0 && !t.con.Assumed {
+			if why, ok := t.checkRecvInvClosed(); ok {
+				t.note("representation invariant of the receiver assumed at entry and proved at every return (%s)", why)
+				for _, c := range t.con.RecvInv {
+					env := t.entryEnv(entry)
+					t.assumps = append(t.assumps, Assump{Guard: "true", F: Formula{Clause: c, Env: env}, Why: "representation invariant of the receiver's type (closed: every writer of its fields proves it)"})
+				}
+			} else {
+				t.staleClauses = append(t.staleClauses, "recvinv: "+why)
+			}
+		}
 	}
 	// vacuity canary after preconditions
 	t.canary("entry", "true")
@@ -2214,4 +2233,109 @@ func isCellType(ty types.Type) bool {
 		return false
 	}
 	return true
+}
+
+// checkRecvInvClosed decides whether the `recvinv` clause of this method may be
+// assumed at entry: the receiver is a pointer to a named struct type T, all
+// fields of T are unexported (no other package can write them), and every
+// function of T's package that stores to a field of a T (through any *T, a
+// composite literal included) is itself a contracted, non-assumed function
+// with a recvinv clause — so every writer re-establishes the invariant, and
+// the zero value is the only other way a T comes into being.
+func (t *FnTrans) checkRecvInvClosed() (string, bool) {
+	fn := t.fn
+	if fn.Signature.Recv() == nil || len(fn.Params) == 0 {
+		return "not a method", false
+	}
+	pt, ok := fn.Params[0].Type().Underlying().(*types.Pointer)
+	if !ok {
+		return "receiver is not a pointer", false
+	}
+	named, ok := pt.Elem().(*types.Named)
+	if !ok {
+		return "receiver type is not a named type", false
+	}
+	st, ok := named.Underlying().(*types.Struct)
+	if !ok {
+		return "receiver type is not a struct", false
+	}
+	for i := 0; i < st.NumFields(); i++ {
+		if st.Field(i).Exported() {
+			return fmt.Sprintf("field %s of %s is exported: other packages can write it", st.Field(i).Name(), named.Obj().Name()), false
+		}
+	}
+	pkg := fn.Pkg
+	if pkg == nil {
+		return "no package", false
+	}
+	var tops []*ssa.Function
+	for _, m := range pkg.Members {
+		if f, ok := m.(*ssa.Function); ok {
+			tops = append(tops, f)
+		}
+		if ty, ok := m.(*ssa.Type); ok {
+			for _, tt := range []types.Type{ty.Type(), types.NewPointer(ty.Type())} {
+				ms := pkg.Prog.MethodSets.MethodSet(tt)
+				for i := 0; i < ms.Len(); i++ {
+					if f := pkg.Prog.MethodValue(ms.At(i)); f != nil && f.Pkg == pkg && f.Synthetic == "" {
+						tops = append(tops, f)
+					}
+				}
+			}
+		}
+	}
+	seen := map[*ssa.Function]bool{}
+	var writers []string
+	var bad string
+	var visit func(top, f *ssa.Function)
+	visit = func(top, f *ssa.Function) {
+		for _, b := range f.Blocks {
+			for _, in := range b.Instrs {
+				// every function that touches a field of T (and could so reach
+				// the memory the invariant speaks about: the fields and what
+				// they refer to) either proves the invariant itself or is
+				// verified to write nothing (pure)
+				fa, ok := in.(*ssa.FieldAddr)
+				if !ok {
+					continue
+				}
+				xp, ok := fa.X.Type().Underlying().(*types.Pointer)
+				if !ok || !types.Identical(xp.Elem(), named) {
+					continue
+				}
+				con := t.W.contractFor(top)
+				if con == nil || con.Assumed || (len(con.RecvInv) == 0 && !con.Pure) {
+					bad = fmt.Sprintf("%s uses %s.%s and neither proves the invariant nor is verified pure", top.Name(), named.Obj().Name(), st.Field(fa.Field).Name())
+					return
+				}
+				if con.Pure {
+					continue
+				}
+				found := false
+				for _, w := range writers {
+					if w == top.Name() {
+						found = true
+					}
+				}
+				if !found {
+					writers = append(writers, top.Name())
+				}
+			}
+		}
+		for _, a := range f.AnonFuncs {
+			visit(top, a)
+		}
+	}
+	for _, f := range tops {
+		if seen[f] {
+			continue
+		}
+		seen[f] = true
+		visit(f, f)
+		if bad != "" {
+			return bad, false
+		}
+	}
+	sort.Strings(writers)
+	return fmt.Sprintf("closedness checked: all fields of %s are unexported; the functions of its package that use them are verified pure or are %s, each of which proves the invariant", named.Obj().Name(), strings.Join(writers, ", ")), true
 }
